@@ -112,7 +112,7 @@ def run(ck, ix, tier):
     fi = ix.func(PR, "GenericPlainRegistry.get_name")
     ck.analysed(fi)
     defs = defs_of(fi)
-    stores = [(p, k, nd) for (p, k, nd) in writes_in(fi.node) if p == "self._units" or p.startswith("self._units")]
+    stores = [(p, k, nd) for (p, k, nd) in writes_in(fi.node) if p.startswith("self._units") and "casei" not in p and isinstance(nd, ast.Assign)]
     ck.check(len(stores) == 1, "G-OWN", "get_name|exactly-one-registration", fi.loc(stores[1][2]) if len(stores) > 1 else fi.loc(),
              "one registration of the prefixed unit", f"get_name writes the unit table {len(stores)} times (a prefixed unit must be registered under its long name only; other spellings can shadow defined units)")
     cas = [(p, k, nd) for (p, k, nd) in writes_in(fi.node) if "_units_casei" in p]
